@@ -528,6 +528,7 @@ Direction B: the reference encrypts, lopdf authenticates / decrypts in memory an
         dir_b(c, &mut r, i);
     }
     saslprep_cases(c);
+    straddle_cases(c);
     witnesses(c);
 }
 
@@ -562,8 +563,10 @@ fn gen_cfg_a(r: &mut Rng, forced: Option<Ver>) -> Config {
 }
 
 /// Direction A: lopdf encrypts; reference + Lean spec recompute and decrypt
-fn dir_a(c: &mut Ctx, r: &mut Rng, forced: Option<Ver>, idx: u64) {
-    let cfg = gen_cfg_a(r, forced);
+fn dir_a(c: &mut Ctx, r: &mut Rng, forced: Option<Ver>, idx: u64) { dir_a_pw(c, r, forced, idx, None) }
+fn dir_a_pw(c: &mut Ctx, r: &mut Rng, forced: Option<Ver>, idx: u64, force_pw: Option<(String, String)>) {
+    let mut cfg = gen_cfg_a(r, forced);
+    if let Some((u, o)) = force_pw { cfg.user = u; cfg.owner = o; }
     let orig = iso_clean_doc(r, cfg.revision() >= 4);
     let case = json!({"config": format!("{:?}", cfg), "doc": c05::show_doc(&orig)});
     let state = match guard(|| cfg.make_state(&orig)) { Ok(Ok(s)) => s, other => { c.oracle_fail("encrypt-failed", &format!("{:?}", other.map(|x| x.map(|_| ()))), case); return; } };
@@ -665,8 +668,8 @@ fn dir_a(c: &mut Ctx, r: &mut Rng, forced: Option<Ver>, idx: u64) {
     c.sample(json!({"direction": "A", "rev": rev, "objects": orig.objects.len()}));
 }
 
-fn gen_params_b(r: &mut Rng, idx: u64) -> (refimpl::EncParams, String, String) {
-    let (v, rr, bits): (i64, i64, i64) = match if idx < 16 { idx % 8 } else { r.below(8) } {
+fn gen_params_b(r: &mut Rng, idx: u64, force: Option<(i64, String, String)>) -> (refimpl::EncParams, String, String) {
+    let (v, rr, bits): (i64, i64, i64) = match if let Some((rev, _, _)) = &force { *rev } else if idx < 16 { (idx % 8) as i64 } else { r.below(8) as i64 } {
         0 => (1, 2, 40),
         1 | 2 => (2, 3, 40 + 8 * r.below(12) as i64),
         3 | 4 => (4, 4, 128),
@@ -691,14 +694,16 @@ fn gen_params_b(r: &mut Rng, idx: u64) -> (refimpl::EncParams, String, String) {
         if !r6 && !(user.is_ascii() && owner.is_ascii()) { continue; }
         break;
     }
+    if let Some((_, u, o)) = force { user = u; owner = o; }
     (refimpl::EncParams { v, r: rr, key_bits: bits, p, encrypt_metadata: v < 4 || r.chance(1, 2), cf, stmf, strf,
         owner: if !r6 && r.chance(1, 6) { None } else { Some(owner.as_bytes().to_vec()) }, user: user.as_bytes().to_vec(), file_key: if r6 { r.bytes(32) } else { vec![] },
         write_length: v == 2 || (v == 4 && r.chance(1, 2)) || (v == 5 && r.chance(1, 2)), direct_encrypt_dict: r.chance(1, 4), in_stream_dicts: true }, user, owner)
 }
 
 /// Direction B: the reference encrypts; lopdf authenticates and decrypts (in memory and from a file)
-fn dir_b(c: &mut Ctx, r: &mut Rng, idx: u64) {
-    let (q, user, owner) = gen_params_b(r, idx);
+fn dir_b(c: &mut Ctx, r: &mut Rng, idx: u64) { dir_b_pw(c, r, idx, None) }
+fn dir_b_pw(c: &mut Ctx, r: &mut Rng, idx: u64, force: Option<(i64, String, String)>) {
+    let (q, user, owner) = gen_params_b(r, idx, force);
     // no owner password: the user password is also the owner password (Algorithm 3 step a)
     let owner = if q.owner.is_none() { c.count("b.owner_absent"); user.clone() } else { owner };
     if q.direct_encrypt_dict { c.count("b.direct_encrypt_dict"); }
@@ -779,6 +784,32 @@ fn dir_b(c: &mut Ctx, r: &mut Rng, idx: u64) {
     c.sample(json!({"direction": "B", "rev": q.r, "v": q.v, "bits": q.key_bits}));
 }
 
+
+/// R5/R6: "truncate the UTF-8 representation to 127 bytes" cuts at byte 127 exactly, also in the middle of a
+/// character.  Passwords of 120..140 bytes with a 2-, 3- or 4-byte character straddling byte 127 at every phase,
+/// as user and as owner password, both revisions, both directions.
+fn straddle_cases(c: &mut Ctx) {
+    let combos: Vec<(usize, usize)> = vec![(2, 0), (3, 0), (3, 1), (4, 0), (4, 1), (4, 2)];
+    let rounds = c.n(1, 12);
+    let mut i = 0u64;
+    for round in 0..rounds {
+        for (k, (w, ph)) in combos.iter().enumerate() {
+            let Some(mut r) = c.case("straddle", i) else { i += 1; continue };
+            i += 1;
+            let total = if c.quick() { 128 + (k % 3) * 6 } else { 120 + r.usize(21) };
+            let long = c05::straddle_password(&mut r, *w, *ph, total);
+            let other = if r.chance(1, 3) { let (w2, p2) = *r.pick(&combos); let t2 = 120 + r.usize(21); c05::straddle_password(&mut r, w2, p2, t2) } else { c05::gen_password(&mut r, true) };
+            // alternate role (user / owner), revision (5 / 6) and direction so that the quick tier sees each once
+            let as_user = (k as u64 + round) % 2 == 0;
+            let rev6 = (k as u64 / 2 + round) % 2 == 0;
+            let (user, owner) = if as_user { (long.clone(), other.clone()) } else { (other.clone(), long.clone()) };
+            let (user, owner) = if user == owner { (user, format!("{}!", owner)) } else { (user, owner) };
+            c.count(&format!("straddle.w{}.phase{}.{}.r{}", w, ph, if as_user { "user" } else { "owner" }, if rev6 { 6 } else { 5 }));
+            dir_a_pw(c, &mut r, Some(if rev6 { Ver::V5 } else { Ver::R5 }), 1_000 + i, Some((user.clone(), owner.clone())));
+            dir_b_pw(c, &mut r, 1_001 + i * 2, Some((if rev6 { 7 } else { 5 }, user, owner)));
+        }
+    }
+}
 
 /// R5/R6 password preparation: SASLprep (RFC 4013) is an external crate (`stringprep`) that the model
 /// and the main streams take as given (both sides are fed lopdf's own `sanitize_password` result).
